@@ -252,6 +252,7 @@ type Reply struct {
 	Misses    int    `json:"misses,omitempty"` // explicit not-found replies (binary non-quiet)
 	Terms     int    `json:"terms"`            // terminators seen
 	Frames    int    `json:"frames"`           // reply frames / lines attributed
+	Errs      int    `json:"errs,omitempty"`   // error replies seen in the span of this request
 	Malformed string `json:"malformed,omitempty"`
 }
 
@@ -466,6 +467,47 @@ func DecodeSpan(proto string, span []byte, op Op) Reply {
 	}
 	if un > 0 && r.Malformed == "" {
 		r.Malformed = fmt.Sprintf("%d reply frame(s) not carrying the request's opaque", un)
+	}
+	if r.Class == "error" {
+		r.Errs++
+	}
+	return r
+}
+
+// DecodeSpanLenient is DecodeSpan for fault scenarios: a binary error reply is accepted as "an
+// error reply" whatever opaque it carries (rend answers a failed get with opaque 0).
+func DecodeSpanLenient(proto string, span []byte, op Op) Reply {
+	r := DecodeSpan(proto, span, op)
+	if proto == "text" {
+		if r.Class == "error" {
+			r.Errs = 1
+		}
+		return r
+	}
+	if strings.HasSuffix(r.Malformed, "not carrying the request's opaque") {
+		frames, mal, _ := DecodeBinFrames(span)
+		if mal != "" {
+			return r
+		}
+		lo, hi := op.Opaque, op.Opaque+uint32(len(op.Keys))+1
+		allErr := true
+		n := 0
+		for _, f := range frames {
+			if f.Opaque >= lo && f.Opaque <= hi {
+				continue
+			}
+			n++
+			if f.Status == 0 {
+				allErr = false
+			}
+		}
+		if allErr && n > 0 {
+			r.Malformed = ""
+			r.Errs += n
+			if r.Class == "none" {
+				r.Class = "error"
+			}
+		}
 	}
 	return r
 }
